@@ -18,6 +18,7 @@ typedef struct {
 
 	dir_tree_cfg_t cfg;
 	int state;
+	bool is_hard_link;
 	sqfs_dir_iterator_t *rec;
 } dir_tree_iterator_t;
 
@@ -155,6 +156,7 @@ retry:
 		}
 	}
 
+	it->is_hard_link = (ent->flags & SQFS_DIR_ENTRY_FLAG_HARD_LINK) != 0;
 	*out = ent;
 	return it->state;
 }
@@ -162,11 +164,40 @@ retry:
 static int read_link(sqfs_dir_iterator_t *base, char **out)
 {
 	dir_tree_iterator_t *it = (dir_tree_iterator_t *)base;
+	int ret;
 
 	if (it->state)
 		return it->state;
 
-	return it->rec->read_link(it->rec, out);
+	ret = it->rec->read_link(it->rec, out);
+	if (ret != 0 || !it->is_hard_link)
+		return ret;
+
+	/*
+	  The target of a hard link is the name of an entry that the wrapped
+	  iterator returned earlier, so it needs the same prefix as the names
+	  we return, otherwise it refers to a different (or no) entry.
+	 */
+	if (it->cfg.prefix != NULL && it->cfg.prefix[0] != '\0') {
+		size_t plen = strlen(it->cfg.prefix);
+		size_t tlen = strlen(*out) + 1;
+		char *target = malloc(plen + 1 + tlen);
+
+		if (target == NULL) {
+			free(*out);
+			*out = NULL;
+			return SQFS_ERROR_ALLOC;
+		}
+
+		memcpy(target, it->cfg.prefix, plen);
+		target[plen] = '/';
+		memcpy(target + plen + 1, *out, tlen);
+
+		free(*out);
+		*out = target;
+	}
+
+	return 0;
 }
 
 static int open_subdir(sqfs_dir_iterator_t *base, sqfs_dir_iterator_t **out)
